@@ -94,6 +94,36 @@ Theorem c14_accept_complete :
 Proof. exact validate_complete. Qed.
 Print Assumptions c14_accept_complete.
 
+(* the certificate chain of the peer's Certificate message: the callback
+   accepts only if the LEAF (first) certificate -- the one whose key the DTLS
+   handshake authenticates -- matches a signalled fingerprint, records that
+   leaf as the remote certificate, and a chain whose leaf does not match is
+   rejected whatever follows it (in particular [A; G] with G the signalled
+   certificate); the verdict does not depend on the tail at all *)
+Theorem c14_chain_leaf_only :
+  forall (raw cert : Type) (parse : raw -> option cert) (H : string -> cert -> option string) fps,
+  (forall chain, snd (verify_peer raw cert parse H false fps chain) = Ok tt ->
+     exists leaf rest c,
+       chain = leaf :: rest /\ parse leaf = Some c /\ cert_matches cert H fps c /\
+       fst (verify_peer raw cert parse H false fps chain) = Some leaf) /\
+  (forall leaf rest,
+     (forall c, parse leaf = Some c -> ~ cert_matches cert H fps c) ->
+     snd (verify_peer raw cert parse H false fps (leaf :: rest)) <> Ok tt) /\
+  (forall disabled leaf rest,
+     verify_peer raw cert parse H disabled fps (leaf :: rest) =
+     verify_peer raw cert parse H disabled fps [leaf]).
+Proof. exact chain_leaf_only. Qed.
+Print Assumptions c14_chain_leaf_only.
+
+(* totality of the callback: no certificate at all is an error, never a panic *)
+Theorem c14_chain_total :
+  forall (raw cert : Type) (parse : raw -> option cert) (H : string -> cert -> option string)
+         disabled fps,
+  verify_peer raw cert parse H disabled fps [] = (None, Err "no-remote-certificate") /\
+  (forall chain, snd (verify_peer raw cert parse H disabled fps chain) <> Panic).
+Proof. exact chain_total. Qed.
+Print Assumptions c14_chain_total.
+
 (* extraction, all placement cases: session level first; else the bundle
    master's section; else the first section with one; then the two-token
    split.  It never panics. *)
@@ -150,3 +180,20 @@ Example c14_validate_example :
   validate unit H [("sha-256", "AB:CE")] tt = Err "no-matching-fingerprint" /\
   validate unit H [("sha-999", "AB:CD"); ("sha-256", "AB:CD")] tt = Err "hash-error".
 Proof. repeat split; reflexivity. Qed.
+
+(* the chain [A; G]: G's fingerprint was signalled, the peer authenticates
+   with A and appends G -- rejected; [G; A] is accepted and G is recorded *)
+Example c14_chain_example :
+  let H := fun (a : string) (c : string) => if String.eqb a "sha-256" then Some c else None in
+  let parse := fun (r : string) => if String.eqb r "" then None else Some r in
+  let fps := [("sha-256", "AB:CD")] in
+  verify_peer string string parse H false fps ["ee:ff"; "ab:cd"] = (Some "ee:ff", Err "no-matching-fingerprint") /\
+  verify_peer string string parse H false fps ["ab:cd"; "ee:ff"] = (Some "ab:cd", Ok tt) /\
+  verify_peer string string parse H false fps [""; "ab:cd"] = (Some "", Err "parse-error") /\
+  verify_peer string string parse H true fps ["ee:ff"; "ab:cd"] = (Some "ee:ff", Ok tt) /\
+  (forall c, parse "ee:ff" = Some c -> ~ cert_matches string H fps c).
+Proof.
+  repeat split; try reflexivity.
+  intros c Hc [a [v [h [Hin [Hh Hf]]]]]. cbv in Hc. inversion Hc; subst.
+  destruct Hin as [E|[]]. inversion E; subst. cbv in Hh. inversion Hh; subst. cbv in Hf. discriminate.
+Qed.
